@@ -340,6 +340,73 @@ Definition calls_on (p i : nat) (log : list (nat * value)) : nat := length (filt
 Fixpoint values_to_list (vs : values) : list value :=
   match vs with VsNil => [] | VsCons v vs0 => v :: values_to_list vs0 end.
 
+(* ---------------------------------------------------------------- match-rule processors *)
+(* model.py `process_match` (called by process_node while the object tree is being built):
+   the processors of match rules run on the parse subtree of a match-rule value, children
+   left to right, innermost first; a node's processor receives the concatenation of its
+   children's results (`"".join(str(...))`, or the only child's result).  Values are
+   abstracted to strings (harness processors return strings); `mreg r` = a processor is
+   registered under rule name r, `mproc r s` = what it returns. *)
+Inductive ptree :=
+| PTerm (rule : nat) (text : list N)
+| PNode (rule : nat) (kids : ptrees)
+with ptrees :=
+| PNil
+| PCons (t : ptree) (ts : ptrees).
+
+Section Match.
+  Variable mreg : nat -> bool.
+  Variable mproc : nat -> list N -> list N.
+
+  (* metamodel.process(value, rule_name): the registered processor, else the identity *)
+  Definition mcall (r : nat) (s : list N) (log : list (nat * list N)) : list (nat * list N) * list N :=
+    if mreg r then (log ++ [(r, s)], mproc r s) else (log, s).
+
+  Fixpoint pmatch (t : ptree) (log : list (nat * list N)) {struct t} : list (nat * list N) * list N :=
+    match t with
+    | PTerm r s => mcall r s log                                  (* Terminal *)
+    | PNode r ks =>
+        let '(log1, res) :=
+          match ks with
+          | PCons k PNil => pmatch k log                           (* len(nt) == 1 *)
+          | _ => pmatch_join ks log                                (* join of the converted children *)
+          end in
+        mcall r res log1
+    end
+  with pmatch_join (ks : ptrees) (log : list (nat * list N)) {struct ks} : list (nat * list N) * list N :=
+    match ks with
+    | PNil => (log, [])
+    | PCons k ks' =>
+        let '(log1, a) := pmatch k log in
+        let '(log2, b) := pmatch_join ks' log1 in
+        (log2, a ++ b)
+    end.
+
+  (* the match-rule values of a build, in the order process_node reaches them *)
+  Fixpoint pmatch_forest (ts : list ptree) (log : list (nat * list N)) : list (nat * list N) :=
+    match ts with
+    | [] => log
+    | t :: ts' => pmatch_forest ts' (fst (pmatch t log))
+    end.
+
+  (* specification: result and post-order call list of a subtree *)
+  Definition mapp (r : nat) (s : list N) : list N := if mreg r then mproc r s else s.
+  Fixpoint mval (t : ptree) : list N :=
+    match t with
+    | PTerm r s => mapp r s
+    | PNode r ks => mapp r (mvals ks)
+    end
+  with mvals (ks : ptrees) : list N :=
+    match ks with PNil => [] | PCons k ks' => mval k ++ mvals ks' end.
+  Fixpoint mevents (t : ptree) : list (nat * list N) :=
+    match t with
+    | PTerm r s => if mreg r then [(r, s)] else []
+    | PNode r ks => mevents_kids ks ++ (if mreg r then [(r, mvals ks)] else [])
+    end
+  with mevents_kids (ks : ptrees) : list (nat * list N) :=
+    match ks with PNil => [] | PCons k ks' => mevents k ++ mevents_kids ks' end.
+End Match.
+
 (* ---------------------------------------------------------------- phases of a load *)
 (* model.py:936-987 for the main model: the list of models under construction is resolved in
    rounds, then every model ends construction (user-class __init__), then every model gets
@@ -492,3 +559,11 @@ Definition run_models (F : walk_facts) (regl falsy : list nat) (tbl : list (nat 
     (ms : list (dcl * value)) : string :=
   let rs := map (fun m => walk_root F (tbl_reg regl) (tbl_proc tbl) (tbl_truthy falsy) (fst m) (snd m)) ms in
   show_log (flat_map fst rs) ++ "$" ++ sjoin "$" (map (fun r => show_value (snd r)) rs).
+
+(* match-rule processors of the harness: the processor of rule r appends a fixed suffix *)
+Definition tbl_mproc (tbl : list (nat * list N)) (r : nat) (s : list N) : list N :=
+  match find (fun x => Nat.eqb (fst x) r) tbl with Some (_, suf) => s ++ suf | None => s end.
+Definition show_mlog (l : list (nat * list N)) : string :=
+  sjoin "|" (map (fun e => show_nat (fst e) ++ "(" ++ show_str (snd e) ++ ")") l).
+Definition run_match (regl : list nat) (tbl : list (nat * list N)) (ts : list ptree) : string :=
+  show_mlog (pmatch_forest (tbl_reg regl) (tbl_mproc tbl) ts []).
